@@ -14,6 +14,7 @@ import shutil
 
 from ..core      import Result, digest
 from ..harness   import rp, ru, rps, rpc, make_td
+from ..harness import FINAL_STATES
 from ..minipilot import MiniPilot
 
 ID     = 'C05'
@@ -194,7 +195,7 @@ def run_case(ctx, res, case, idx=0):
             t_start = time.time()
             last_n, last_t = activity(), time.time()
             while True:
-                if all(t.state in rps.FINAL for t in ts):
+                if all(t.state in FINAL_STATES for t in ts):
                     return True
                 now = time.time()
                 n = activity()
@@ -253,9 +254,9 @@ def judge(case, res, mp, by_uid, seen, ok1, tasks2, ok2):
         task = by_uid[uid]
         res.count('tasks_judged')
         res.see('final_states', task.state)
-        finals = [s for u, s in seen if u == uid and s in rps.FINAL]
+        finals = [s for u, s in seen if u == uid and s in FINAL_STATES]
 
-        if task.state not in rps.FINAL:
+        if task.state not in FINAL_STATES:
             if ok1 is None:
                 res.count('busy_at_hard_limit_not_judged')
                 continue
